@@ -18,9 +18,7 @@ static DEFMODULE_SPLIT_REGEX: OnceLock<Pattern> = OnceLock::new();
 static SALIENCE_REGEX: OnceLock<Pattern> = OnceLock::new();
 static TEST_CONDITION_REGEX: OnceLock<Pattern> = OnceLock::new();
 static TYPED_TEST_CONDITION_REGEX: OnceLock<Pattern> = OnceLock::new();
-static FUNCTION_CALL_REGEX: OnceLock<Pattern> = OnceLock::new();
 static METHOD_CALL_REGEX: OnceLock<Pattern> = OnceLock::new();
-static FUNCTION_BINDING_REGEX: OnceLock<Pattern> = OnceLock::new();
 static MULTIFIELD_COLLECT_REGEX: OnceLock<Pattern> = OnceLock::new();
 static MULTIFIELD_COUNT_REGEX: OnceLock<Pattern> = OnceLock::new();
 static MULTIFIELD_FIRST_REGEX: OnceLock<Pattern> = OnceLock::new();
@@ -71,23 +69,99 @@ fn typed_test_condition_regex() -> &'static Pattern {
     })
 }
 
-fn function_call_regex() -> &'static Pattern {
-    FUNCTION_CALL_REGEX.get_or_init(|| {
-        Pattern::new(r#"([a-zA-Z_]\w*)\s*\(([^)]*)\)\s*(>=|<=|==|!=|>|<|contains|startsWith|endsWith|matches|in)\s*(.+)"#)
-            .expect("Invalid function call regex")
-    })
-}
-
 fn method_call_regex() -> &'static Pattern {
     METHOD_CALL_REGEX.get_or_init(|| {
         Pattern::new(r#"\$(\w+)\.(\w+)\s*\(([^)]*)\)"#).expect("Invalid method call regex")
     })
 }
 
-fn function_binding_regex() -> &'static Pattern {
-    FUNCTION_BINDING_REGEX.get_or_init(|| {
-        Pattern::new(r#"(\w+)\s*\(\s*(.+?)?\s*\)"#).expect("Invalid function binding regex")
-    })
+/// Equivalent of `function_binding_regex().captures(..)` (`(\w+)\s*\(\s*(.+?)?\s*\)`, unanchored) without
+/// backtracking: the leftmost ASCII identifier that is followed by `(`; the argument string is the shortest
+/// non-empty text after the opening parenthesis (leading white space skipped) that is followed by optional
+/// white space and a `)`, or empty for `name()`. The backtracking matcher is more than quadratic on input
+/// such as `f(f(f(...` without a closing parenthesis.
+fn match_function_call(text: &str) -> Option<(&str, &str)> {
+    let is_word = |c: char| c.is_ascii_alphanumeric() || c == '_';
+    let len = text.len();
+    let mut pos = 0;
+    while pos < len {
+        // next identifier run
+        let start = pos + text[pos..].find(is_word)?;
+        let end = text[start..]
+            .find(|c: char| !is_word(c))
+            .map(|o| start + o)
+            .unwrap_or(len);
+        let after = text[end..].trim_start();
+        if let Some(rest) = after.strip_prefix('(') {
+            let rest = rest.trim_start();
+            // The matcher this replaces gave the argument group the longest text on the line the
+            // arguments start on (the group cannot cross a line break) that is followed by optional
+            // white space and a `)`.
+            let line_end = rest.find('\n').unwrap_or(rest.len());
+            let cut = if rest[line_end..].trim_start().starts_with(')') {
+                Some(line_end)
+            } else {
+                rest[..line_end].rfind(')')
+            };
+            match cut {
+                Some(k) => return Some((&text[start..end], &rest[..k])),
+                None => {
+                    if !rest.contains(')') {
+                        return None;
+                    }
+                }
+            }
+        }
+        pos = end.max(start + 1);
+    }
+    None
+}
+
+/// Equivalent of `function_call_regex().captures(..)` without backtracking:
+/// `name(args) op value` where `name` is the first identifier (ASCII, not starting with a digit) that is
+/// followed by a parenthesised argument list without `)` inside, a comparison operator and a non-empty
+/// value running to the end of the line. Returns (name, args, operator, value). The backtracking matcher
+/// is cubic on input such as `f()f()f()...`.
+fn match_function_condition(text: &str) -> Option<(&str, &str, &str, &str)> {
+    const OPERATORS: [&str; 11] = [
+        ">=", "<=", "==", "!=", ">", "<", "contains", "startsWith", "endsWith", "matches", "in",
+    ];
+    let is_word = |c: char| c.is_ascii_alphanumeric() || c == '_';
+    let len = text.len();
+    let mut pos = 0;
+    while pos < len {
+        // next identifier run; the name starts at its first character that is not a digit
+        let run = pos + text[pos..].find(is_word)?;
+        let end = text[run..]
+            .find(|c: char| !is_word(c))
+            .map(|o| run + o)
+            .unwrap_or(len);
+        pos = end.max(run + 1);
+        let Some(off) = text[run..end].find(|c: char| !c.is_ascii_digit()) else {
+            continue;
+        };
+        let start = run + off;
+        let after = text[end..].trim_start();
+        let Some(rest) = after.strip_prefix('(') else {
+            continue;
+        };
+        // no `)` after this point means no match here or further right
+        let close = rest.find(')')?;
+        let args = &rest[..close];
+        let tail = rest[close + 1..].trim_start();
+        // the first operator (in this order) that fits decides; there is no second try
+        if let Some((op, v)) = OPERATORS
+            .iter()
+            .find_map(|op| tail.strip_prefix(op).map(|v| (*op, v)))
+        {
+            let v = v.trim_start();
+            let line = &v[..v.find('\n').unwrap_or(v.len())];
+            if !line.is_empty() {
+                return Some((&text[start..end], args, op, line));
+            }
+        }
+    }
+    None
 }
 
 fn multifield_collect_regex() -> &'static Pattern {
@@ -1314,11 +1388,11 @@ impl GRLParser {
         }
 
         // Try to parse function call pattern: functionName(arg1, arg2, ...) operator value
-        if let Some(captures) = function_call_regex().captures(clause_to_parse) {
-            let function_name = captures.get(1).unwrap().to_string();
-            let args_str = captures.get(2).unwrap();
-            let operator_str = captures.get(3).unwrap();
-            let value_str = captures.get(4).unwrap().trim();
+        if let Some((function_name, args_str, operator_str, value_str)) =
+            match_function_condition(clause_to_parse)
+        {
+            let function_name = function_name.to_string();
+            let value_str = value_str.trim();
 
             // Parse arguments
             let args: Vec<String> = if args_str.trim().is_empty() {
@@ -1793,9 +1867,7 @@ impl GRLParser {
         }
 
         // Function calls: update($Object), retract($Object), etc.
-        if let Some(captures) = function_binding_regex().captures(trimmed) {
-            let function_name = captures.get(1).unwrap();
-            let args_str = captures.get(2).unwrap_or("");
+        if let Some((function_name, args_str)) = match_function_call(trimmed) {
 
             match function_name.to_lowercase().as_str() {
                 "retract" => {
